@@ -58,6 +58,10 @@ for nm, lo, hi in (('hex.small', 0, 15), ('hex.medium', 16, 1024), ('hex.large',
 if __name__ == '__main__':
     fns = mirsym.parse_mir(open(sys.argv[1]).read())
     src, nmax = sys.argv[2], int(sys.argv[3])
+    if sys.argv[4:] == ['validate.iter']:
+        mirsym.set_mode('bv')
+        print(json.dumps({'name': 'validate.iter', 'predictions': scenarios.validate_iter(fns, src, nmax)}))
+        sys.exit(0)
     for sc in sys.argv[4:]:
         # multiply/divide kernels: mathematical integers with explicit wrap conditions (see mirsym.MODE); everything else 64-bit bit-vectors
         mode = 'int' if sc.startswith(('chunks.', 'unchunk.')) else 'bv'
